@@ -172,9 +172,8 @@ def check(db, rep):
         r4.violation('UpdateExpressions', '%s:%d' % (ue.file, ue.line), 'mentions are not rewritten for every constituent on both sides of the core')
 
     # ------------------------------------------------------------------ r5
-    r5 = rep.rule('r5', 'MERGE: every copied constituent is recorded (translation + alias map) and translated unconditionally', 3)
-    mw = db.fn(S + 'rsOperationFacet::MergeWith')
-    _merge_rule(db, r5, mw)
+    r5 = rep.rule('r5', 'MERGE: MergeWith interpreted on small schemas: every constituent of the second schema is copied and recorded in the returned translation, and each copy carries the source texts with every mention renamed exactly once by the complete map', 1)
+    merge_evaluated(db, r5)
     _admissible_table(db, rep)
 
 
@@ -183,6 +182,9 @@ def _admissible_table(db, rep):
     defined iff every left side is a constituent of operand 1 AND every right side a constituent of operand 2 (and the pairs are equatable)"""
     import itertools
     from engine.evalmini import Interp, Obj, OutOfFragment, NOT_HANDLED
+    r7 = rep.rule('r7', 'TRANSLATE-ONCE (shared with C08 r8): merged copies have every mention rewritten exactly once by the complete alias map', 4)
+    from rules.shared_translate_once import translate_once_rule
+    translate_once_rule(db, r7)
     r6 = rep.rule('r6', 'ADMISSIBLE-TABLE: a synthesis table is accepted only if each pair names a constituent of operand 1 and one of operand 2 and the pairs are equatable', 1)
     f = db.fn(OPS + 'BinarySynthes::ResetResult', required=False)
     if f is None:
@@ -278,3 +280,150 @@ def _merge_rule(db, r5, mw):
         r5.violation('MergeWith:translate', mw.loc(t0), 'not every copied constituent is translated with the alias map')
     else:
         r5.ok('MergeWith:translate', 'every copy is translated after the alias map is complete', mw.loc(t0))
+
+
+# ---------------------------------------------------------------------------------------------- r5: the merge, evaluated
+def merge_evaluated(db, rule):
+    """rsOperationFacet::MergeWith with RSForm / RSCore::InsertCopy (whichever overloads it uses) interpreted from the source on small schemas
+    whose texts are sequences of name mentions. Supplied: the name registry (a new alias is the first free number of its letter), the
+    storages (Load / Insert keep the record), and the effect of a translator on a text (every mention is mapped once).
+    Required: every constituent of the second schema has a copy, the returned translation maps each to its copy, and each copy's texts are
+    the source texts with every mention replaced by the alias of the copy of the mentioned constituent - exactly once."""
+    from engine.evalmini import Interp, Obj, OutOfFragment, NOT_HANDLED
+    mw = db.fn(S + 'rsOperationFacet::MergeWith', required=False)
+    if mw is None:
+        rule.broken('anchor vanished: rsOperationFacet::MergeWith')
+        return
+    FIELDS = ('definition', 'convention', 'term', 'text')
+
+    def scenario(dest_aliases, src):
+        """src: list of (alias, [mentions]) ; returns (bad message or None)"""
+        used = set(dest_aliases)
+        store = {}            # new uid -> record
+        next_uid = [100]
+        src_recs = {}
+        for i, (alias, mentions) in enumerate(src):
+            src_recs[i + 1] = Obj(__cls__='cst', uid=i + 1, alias=alias.encode(), type=ord(alias[0]), **{f: [m.encode() for m in (mentions.get(f, []) if isinstance(mentions, dict) else mentions)] for f in FIELDS})
+        result_tr = {}
+
+        def apply(rec, mapping):
+            for f in FIELDS:
+                rec[f] = [mapping.get(m, m) for m in rec[f]]
+
+        def on_call(it, fn, n, env):
+            cs = n.get('cs') or ''
+            last = cs.split('::')[-1]
+            Sx = fn.stmts
+
+            def ev(sid):
+                v = it.eval(fn, Sx[sid], env)
+                while isinstance(v, tuple) and len(v) == 2 and v[0] == 'ptr':
+                    v = v[1]
+                return v
+            a = lambda: [ev(x) for x in n.get('args', [])]
+            if last == 'List' and cs.startswith(S):
+                return sorted(src_recs)
+            if last == 'Core' and cs.startswith(S):
+                o = ev(n['obj']) if 'obj' in n else None
+                return Obj(__cls__='core', which='src' if isinstance(o, Obj) and o.get('which') == 'src' else 'dst')
+            if last in ('GetRS', 'GetText') and cs.startswith(S):
+                o = ev(n['obj']) if 'obj' in n else None
+                uid = a()[0]
+                if isinstance(o, Obj) and o.get('which') == 'src':
+                    return src_recs[uid]
+                if uid not in store:
+                    raise OutOfFragment('GetRS of an unknown constituent %s' % uid)
+                return store[uid]
+            if last == 'RegisterID':
+                uid, alias, typ = a()
+                alias = bytes(alias).decode()
+                new_alias = alias
+                if new_alias in used:
+                    k_ = 1
+                    while '%s%d' % (alias[0], k_) in used:
+                        k_ += 1
+                    new_alias = '%s%d' % (alias[0], k_)
+                used.add(new_alias)
+                next_uid[0] += 1
+                return Obj(uid=next_uid[0], alias=new_alias.encode())
+            if last in ('Load', 'Insert') and cs.startswith((S + 'Schema::', S + 'Thesaurus::')):
+                rec = a()[0]
+                cur = store.setdefault(rec['uid'], Obj(__cls__='cst', uid=rec['uid'], alias=rec['alias'], type=rec.get('type'), **{f: list(rec[f]) for f in FIELDS}))
+                part = ('definition', 'convention') if 'Schema' in cs else ('term', 'text')
+                for f in part:
+                    cur[f] = list(rec[f])
+                cur['alias'] = rec['alias']
+                return True
+            if last == 'Insert' and 'CstList' in cs:
+                return None
+            if last == 'CreateTranslator':
+                m = a()[0]
+                return Obj(__kind__='translator', m=dict(m))
+            if last in ('Translate', 'TranslateRaw', 'TranslateAll') and cs.startswith((S + 'RSConcept::', S + 'TextConcept::')):
+                rec = ev(n['obj'])
+                tr = a()[0]
+                part = ('definition', 'convention') if 'RSConcept' in cs else ('term', 'text')
+                for f in part:
+                    rec[f] = [tr['m'].get(m_, m_) for m_ in rec[f]]
+                return True
+            if cs in (S + 'Schema::Translate', S + 'Thesaurus::Translate'):
+                uid, tr = a()
+                part = ('definition', 'convention') if 'Schema' in cs else ('term', 'text')
+                for f in part:
+                    store[uid][f] = [tr['m'].get(m_, m_) for m_ in store[uid][f]]
+                return True
+            if last in ('UpdateState', 'NotifyModification', 'Notify', 'reserve'):
+                return None
+            if cs == 'ccl::EntityTranslation::Insert' or (last == 'Insert' and 'EntityTranslation' in cs):
+                k_, v_ = a()
+                result_tr[k_] = v_
+                return None
+            if n['k'] in ('CXXConstructExpr', 'CXXTemporaryObjectExpr') and (n.get('cls') or '').endswith(('EntityTranslation',)):
+                return Obj(__cls__='etr')
+            if n['k'] in ('CXXConstructExpr', 'CXXTemporaryObjectExpr') and (n.get('cls') or '').endswith(('RSConcept', 'TextConcept')) and len(n.get('args', [])) == 1:
+                r0 = a()[0]
+                return Obj(__cls__='cst', uid=r0['uid'], alias=r0['alias'], type=r0.get('type'), **{f: list(r0[f]) for f in FIELDS})
+            if last in ('size', 'ssize') and n.get('args') and cs.startswith('std::'):
+                v = ev(n['args'][0])
+                if isinstance(v, Obj) and v.get('__cls__') == 'core':
+                    return len(src_recs)
+            return NOT_HANDLED
+        this = Obj(__cls__=S + 'rsOperationFacet', core=Obj(__cls__=S + 'RSForm', which='dst', core=Obj(__cls__=S + 'RSCore', which='dst', identifiers=Obj(), schema=Obj(), thesaurus=Obj(), cstList=Obj())))
+        Interp(db, on_call=on_call, max_steps=400000).call(mw, [Obj(__cls__=S + 'RSForm', which='src')], this)
+        # expectations
+        if sorted(result_tr) != sorted(src_recs):
+            return 'the returned translation covers %s of the constituents %s of the merged schema' % (sorted(result_tr), sorted(src_recs))
+        final = {}
+        for uid, rec in src_recs.items():
+            new = result_tr[uid]
+            if new not in store:
+                return 'constituent %s is translated to %s, which is not in the result' % (bytes(rec['alias']).decode(), new)
+            final[bytes(rec['alias'])] = bytes(store[new]['alias'])
+        for uid, rec in src_recs.items():
+            got = store[result_tr[uid]]
+            for f in FIELDS:
+                want = [final.get(bytes(m), bytes(m)) for m in rec[f]]
+                if [bytes(x) for x in got[f]] != want:
+                    return 'merging %s into a schema holding %s: the copy of %s (%s) has the %s mentions %s, every mention renamed once gives %s' % (
+                        [(a_, m_) for a_, m_ in src], sorted(dest_aliases), bytes(rec['alias']).decode(), bytes(got['alias']).decode(), f,
+                        [bytes(x).decode() for x in got[f]], [w.decode() for w in want])
+        return None
+    cases = [
+        (['X1'], [('X1', ['X1', 'X2']), ('X2', ['X2'])]),                     # chain X1->X2, X2->X3 and self mentions
+        (['X1', 'D1'], [('X1', []), ('D1', ['D1', 'X1']), ('D2', ['D1', 'D2'])]),
+        ([], [('X1', ['X1']), ('D1', ['X1', 'D1'])]),                         # nothing renamed
+        (['X1', 'X2', 'X3'], [('X1', ['X3']), ('X2', ['X1']), ('X3', ['X2', 'X9'])]),
+        (['D1'], [('X1', ['D1']), ('D1', ['X1', 'D1', 'D1'])]),
+        (['X1'], [('X1', {'term': ['X1'], 'text': ['X2', 'X1']}), ('X2', {'definition': ['X1'], 'text': ['X2']})]),     # a constituent with an empty formal part still has texts
+    ]
+    bad = None
+    try:
+        for dest, src in cases:
+            bad = bad or scenario(dest, src)
+    except OutOfFragment as e:
+        rule.broken('MergeWith outside the evaluable fragment: %s' % e)
+        return
+    if bad:
+        rule.violation('MergeWith:evaluated', '%s:%d' % (mw.file, mw.line), bad)
+    else:
+        rule.ok('MergeWith:evaluated', '%d merge scenarios: every constituent copied, recorded, and every mention in its texts renamed exactly once' % len(cases), '%s:%d' % (mw.file, mw.line))
